@@ -41,6 +41,7 @@ def descriptor_table(ctx, fc_args, tabs):
 def run(ctx):
     tabs = I.load_tables(REPO)
     I.fortran_c_agreement(ctx, tabs)
+    I.lookup_path_agreement(ctx, REPO)
     from contracts import fc_args
     descriptor_table(ctx, fc_args, tabs)
     units = fc_args.UNITS
